@@ -12,7 +12,7 @@ _ctx_built = False
 
 
 def _build():
-    global Val, V, _ctx_built
+    global VS, _ctx_built
     D = z3.Datatype('Val')
     F = z3.DatatypeSort('Val')
     I = z3.IntSort()
@@ -22,20 +22,19 @@ def _build():
     D.declare('VAbsent')          # "no such key / attribute" marker, never a real value
     D.declare('VBool', ('b', z3.BoolSort()))
     D.declare('VInt', ('i', I))
-    D.declare('VFloat', ('f', z3.Float64()))
-    D.declare('VStr', ('s', z3.StringSort()))
-    D.declare('VBytes', ('bs', z3.StringSort()))
+    D.declare('VFloat', ('fid', I))           # payload: FpOf(fid)
+    D.declare('VStr', ('sid', I))             # payload: StrOf(sid)
+    D.declare('VBytes', ('bid', I))           # payload: StrOf(bid) (latin-1 text of the bytes)
     D.declare('VList', ('llen', I), ('larr', z3.ArraySort(I, F)))
     D.declare('VTuple', ('tlen', I), ('tarr', z3.ArraySort(I, F)))
     D.declare('VDict', ('dn', I), ('dk', z3.ArraySort(I, F)), ('dm', z3.ArraySort(I, F)))
-    D.declare('VSet', ('sn', I), ('sm', z3.ArraySort(I, z3.BoolSort())))
+    D.declare('VSet', ('sn', I), ('sk', z3.ArraySort(I, F)), ('sm', z3.ArraySort(I, z3.BoolSort())))
     D.declare('VObj', ('oid', I))         # instance of a class of the tree / generated class
     D.declare('VClass', ('cid', I))       # a class object
     D.declare('VDatetime', ('dtid', I))   # datetime.datetime instance (opaque id)
-    D.declare('VFunc', ('fid', I))        # callable (opaque id)
+    D.declare('VFunc', ('fnid', I))        # callable (opaque id)
     D.declare('VOther', ('xid', I))       # any other object kind (opaque)
-    Val = D.create()
-    V = Val
+    VS = D.create()
     _ctx_built = True
 
 
@@ -43,11 +42,94 @@ _build()
 
 FP = z3.Float64()
 
+# Float and string payloads live outside the datatype: a VFloat / VStr / VBytes
+# carries an integer id; FpOf / StrOf give the payload and FpId / StrId are
+# their inverses (axioms instantiated for the terms that occur, see AXIOMS).
+# This keeps the floating-point and sequence theories out of every query that
+# merely splits on the kind of a value.
+FpOf = z3.Function('FpOf', z3.IntSort(), FP)
+FpId = z3.Function('FpId', FP, z3.IntSort())
+StrOf = z3.Function('StrOf', z3.IntSort(), z3.StringSort())
+StrId = z3.Function('StrId', z3.StringSort(), z3.IntSort())
+
+AXIOMS = []
+_AX_SEEN = set()
+KEEP = []
+
+
+def tid(t):
+    """id of a term used as a cache key; the term is kept alive so that z3
+    cannot recycle the id for another term while the cache lives"""
+    KEEP.append(t)
+    return t.get_id()
+
+
+def reset_axioms():
+    del AXIOMS[:]
+    _AX_SEEN.clear()
+    del KEEP[:]
+
+
+def _axiom(key, fact):
+    if key in _AX_SEEN:
+        return
+    _AX_SEEN.add(key)
+    AXIOMS.append(fact)
+
+
+class _ValNS(object):
+    """The Val sort seen through payload accessors: Val.s(t) is the string of
+    a VStr, Val.VStr(s) builds one from a z3 String, likewise f / VFloat and
+    bs / VBytes; everything else is the datatype itself."""
+
+    def __getattr__(self, name):
+        return getattr(VS, name)
+
+    def VStr(self, s):
+        s = z3.simplify(s)
+        _axiom(('so', tid(s)), StrOf(StrId(s)) == s)
+        return VS.VStr(StrId(s))
+
+    def VBytes(self, s):
+        s = z3.simplify(s)
+        _axiom(('so', tid(s)), StrOf(StrId(s)) == s)
+        return VS.VBytes(StrId(s))
+
+    def VFloat(self, f):
+        _axiom(('fo', tid(f)), FpOf(FpId(f)) == f)
+        return VS.VFloat(FpId(f))
+
+    def s(self, t):
+        i = z3.simplify(VS.sid(t))
+        if z3.is_app(i) and i.decl().name() == 'StrId':
+            return i.arg(0)
+        _axiom(('si', tid(i)), StrId(StrOf(i)) == i)
+        return StrOf(i)
+
+    def bs(self, t):
+        i = z3.simplify(VS.bid(t))
+        if z3.is_app(i) and i.decl().name() == 'StrId':
+            return i.arg(0)
+        _axiom(('si', tid(i)), StrId(StrOf(i)) == i)
+        return StrOf(i)
+
+    def f(self, t):
+        i = z3.simplify(VS.fid(t))
+        if z3.is_app(i) and i.decl().name() == 'FpId':
+            return i.arg(0)
+        _axiom(('fi', tid(i)), FpId(FpOf(i)) == i)
+        return FpOf(i)
+
+
+Val = _ValNS()
+V = Val
+
+
 # dict / set keys: maps are keyed by KeyId(key); KeyInv is its left inverse, so
 # adding ``KeyInv(KeyId(k)) == k`` for every key term that occurs makes KeyId
 # injective on those terms without quantifiers.
-KeyId = z3.Function('KeyId', Val, z3.IntSort())
-KeyInv = z3.Function('KeyInv', z3.IntSort(), Val)
+KeyId = z3.Function('KeyId', VS, z3.IntSort())
+KeyInv = z3.Function('KeyInv', z3.IntSort(), VS)
 
 
 def key_axiom(k):
@@ -148,6 +230,14 @@ def py_to_val(x):
         for k, e in enumerate(x):
             arr = z3.Store(arr, k, py_to_val(e))
         return (Val.VList if isinstance(x, list) else Val.VTuple)(z3.IntVal(len(x)), arr)
+    if isinstance(x, (set, frozenset)):
+        ka = z3.K(z3.IntSort(), Val.VAbsent)
+        m = z3.K(z3.IntSort(), z3.BoolVal(False))
+        for k, e in enumerate(sorted(x, key=repr)):
+            kt = py_to_val(e)
+            ka = z3.Store(ka, k, kt)
+            m = z3.Store(m, KeyId(kt), z3.BoolVal(True))
+        return Val.VSet(z3.IntVal(len(x)), ka, m)
     if isinstance(x, dict):
         ka = z3.K(z3.IntSort(), Val.VAbsent)
         m = z3.K(z3.IntSort(), Val.VAbsent)
@@ -208,12 +298,12 @@ def decode_val(model, t, depth=0):
     if d == 'VInt':
         return {'k': 'int', 'v': t.arg(0).as_long()}
     if d == 'VFloat':
-        f = _fp_to_py(t.arg(0))
+        f = _fp_to_py(model.eval(FpOf(t.arg(0)), model_completion=True))
         return {'k': 'float', 'v': repr(f)}
     if d == 'VStr':
-        return {'k': 'str', 'v': _zstr(t.arg(0))}
+        return {'k': 'str', 'v': _zstr(model.eval(StrOf(t.arg(0)), model_completion=True))}
     if d == 'VBytes':
-        return {'k': 'bytes', 'v': _zstr(t.arg(0))}
+        return {'k': 'bytes', 'v': _zstr(model.eval(StrOf(t.arg(0)), model_completion=True))}
     if d in ('VList', 'VTuple'):
         n = t.arg(0).as_long()
         items = []
@@ -230,7 +320,11 @@ def decode_val(model, t, depth=0):
             items.append([decode_val(model, kk, depth + 1), decode_val(model, vv, depth + 1)])
         return {'k': 'dict', 'n': n, 'items': items}
     if d == 'VSet':
-        return {'k': 'set', 'n': t.arg(0).as_long()}
+        n = t.arg(0).as_long()
+        items = []
+        for k in range(max(0, min(n, 8))):
+            items.append(decode_val(model, model.eval(z3.Select(t.arg(1), k), model_completion=True), depth + 1))
+        return {'k': 'set', 'n': n, 'items': items}
     if d == 'VObj':
         return {'k': 'obj', 'id': t.arg(0).as_long()}
     if d == 'VClass':
